@@ -47,12 +47,18 @@ var (
 	c32CB = common.HexToAddress("0xcb00000000000000000000000000000000000c0a") // fee recipient
 	c32P4 = common.BytesToAddress([]byte{4})                                  // identity precompile
 	c32W  = common.HexToAddress("0xaa00000000000000000000000000000000000a0b") // absent withdrawal recipient
+	c32U1 = common.HexToAddress("0xab00000000000000000000000000000000000a0c") // never funded uncle miner
+	c32U2 = common.HexToAddress("0xac00000000000000000000000000000000000a0d") // never funded uncle miner
 )
 
 type c32Fork struct {
 	name                                string
 	cfg                                 *params.ChainConfig
-	pow                                 bool // proof-of-work London: 2 ether block reward
+	pow                                 bool  // proof-of-work: block / uncle / nephew rewards
+	reward                              int64 // static block reward in ether (Frontier 5, Byzantium 3, Constantinople+ 2)
+	london                              bool  // base fee exists and is burned
+	status                              bool  // receipts carry a status (Byzantium+)
+	programs                            bool  // the unit programs are meaningful (EIP-150 gas forwarding, REVERT, DELEGATECALL exist)
 	shanghai, cancun, prague, amsterdam bool
 	blobFraction                        int64
 }
@@ -64,7 +70,7 @@ func c32Forks() []c32Fork {
 		cfg := *params.MergedTestChainConfig
 		cfg.ShanghaiTime, cfg.CancunTime, cfg.PragueTime, cfg.OsakaTime, cfg.AmsterdamTime = nil, nil, nil, nil, nil
 		cfg.BPO1Time, cfg.BPO2Time, cfg.BPO3Time, cfg.BPO4Time, cfg.BPO5Time = nil, nil, nil, nil, nil
-		f := c32Fork{name: name, cfg: &cfg, blobFraction: 3338477}
+		f := c32Fork{name: name, cfg: &cfg, blobFraction: 3338477, london: true, status: true, programs: true}
 		if level >= 1 {
 			cfg.ShanghaiTime, f.shanghai = c32U64(0), true
 		}
@@ -82,10 +88,28 @@ func c32Forks() []c32Fork {
 		}
 		return f
 	}
-	pow := *params.AllEthashProtocolChanges // London at block 0, never merged
+	// proof-of-work rule sets: AllEthashProtocolChanges (everything up to London at block 0, never merged)
+	// with the later forks switched off again
+	powCfg := func(level int) *params.ChainConfig {
+		cfg := *params.AllEthashProtocolChanges
+		if level < 4 { // before London
+			cfg.LondonBlock, cfg.ArrowGlacierBlock, cfg.GrayGlacierBlock = nil, nil, nil
+		}
+		if level < 3 { // before Constantinople..Berlin
+			cfg.ConstantinopleBlock, cfg.PetersburgBlock, cfg.IstanbulBlock, cfg.MuirGlacierBlock, cfg.BerlinBlock = nil, nil, nil, nil, nil
+		}
+		if level < 2 { // Frontier
+			cfg.HomesteadBlock, cfg.EIP150Block, cfg.EIP155Block, cfg.EIP158Block, cfg.ByzantiumBlock = nil, nil, nil, nil, nil
+		}
+		return &cfg
+	}
 	return []c32Fork{
-		{name: "london-pow", cfg: &pow, pow: true},
+		{name: "london-pow", cfg: powCfg(4), pow: true, reward: 2, london: true, status: true, programs: true},
 		mk("paris", 0), mk("shanghai", 1), mk("cancun", 2), mk("prague", 3), mk("osaka", 4), mk("amsterdam", 5),
+		// only used for the uncle / reward chains
+		{name: "frontier-pow", cfg: powCfg(1), pow: true, reward: 5},
+		{name: "byzantium-pow", cfg: powCfg(2), pow: true, reward: 3, status: true, programs: true},
+		{name: "berlin-pow", cfg: powCfg(3), pow: true, reward: 2, status: true, programs: true},
 	}
 }
 
@@ -349,14 +373,23 @@ type c32TxSpec struct {
 	Init       string `json:"init,omitempty"` // create: ok | revert | destruct_self | destruct_e
 }
 
+type c32PowSpec struct {
+	Uncles       string   `json:"uncles"`          // none | b3d1 | b4d2 | b4d2d1 | b3d1d1 (block number, depths)
+	Coinbases    []string `json:"uncle_coinbases"` // never_funded | never_funded2 | funded_eoa | block_coinbase | tx_sender
+	Price        uint64   `json:"gas_price"`
+	ProgramBlock bool     `json:"program_in_block_2,omitempty"`
+}
+
 type c32Case struct {
-	Fork        string    `json:"fork"`
-	Program     []string  `json:"program"`
-	GenesisFee  uint64    `json:"genesis_base_fee"`
-	Tx          c32TxSpec `json:"tx"`
-	SecondTx    bool      `json:"second_tx,omitempty"`
-	Withdrawals []uint64  `json:"withdrawals_gwei,omitempty"` // alternating recipients E, W
-	Insert      bool      `json:"insert_into_blockchain,omitempty"`
+	Fork        string      `json:"fork"`
+	Program     []string    `json:"program"`
+	GenesisFee  uint64      `json:"genesis_base_fee"`
+	Tx          c32TxSpec   `json:"tx"`
+	SecondTx    bool        `json:"second_tx,omitempty"`
+	Withdrawals []uint64    `json:"withdrawals_gwei,omitempty"` // alternating recipients E, W
+	Insert      bool        `json:"insert_into_blockchain,omitempty"`
+	ExactSender bool        `json:"sender_balance_exactly_max_cost,omitempty"`
+	Pow         *c32PowSpec `json:"pow_chain,omitempty"`
 }
 
 func c32BigPow10(n int64) *big.Int { return new(big.Int).Exp(big.NewInt(10), big.NewInt(n), nil) }
@@ -405,7 +438,74 @@ func c32TrieBalances(db ethdb.Database, root common.Hash) (map[common.Hash]*big.
 	return out, total, nil
 }
 
+type c32TxPlan struct {
+	spec    c32TxSpec
+	from    common.Address
+	key     *ecdsa.PrivateKey
+	program bool // runs B's program (or the creation); otherwise a plain transfer to E
+}
+
+type c32UnclePlan struct {
+	parent   int // index of the uncle's parent in the generated chain (uncle number = parent + 2)
+	coinbase common.Address
+	extra    byte
+}
+
+type c32BlockPlan struct {
+	txs         []c32TxPlan
+	withdrawals []uint64
+	uncles      []c32UnclePlan
+}
+
+const c32TxGas = 5_000_000
+
+// c32Plan turns a case into the list of blocks to build. Every chain ends with an empty block so that
+// values shared between the state and a caller's scratch variable would show up one block later.
+func c32Plan(c c32Case) []c32BlockPlan {
+	if c.Pow == nil {
+		first := c32BlockPlan{txs: []c32TxPlan{{spec: c.Tx, from: c32S, key: c32Key1, program: true}}, withdrawals: c.Withdrawals}
+		if c.SecondTx {
+			first.txs = append(first.txs, c32TxPlan{spec: c32TxSpec{Kind: "dynamic", Value: 9, Tip: 3, FeeCap: 2_000_000_000}, from: c32S2, key: c32Key2})
+		}
+		return []c32BlockPlan{first, {}}
+	}
+	cb := func(i int) common.Address {
+		switch c.Pow.Coinbases[i] {
+		case "never_funded":
+			return c32U1
+		case "never_funded2":
+			return c32U2
+		case "funded_eoa":
+			return c32E
+		case "block_coinbase":
+			return c32CB
+		default:
+			return c32S
+		}
+	}
+	plans := make([]c32BlockPlan, 5)
+	for i := 0; i < 4; i++ {
+		tx := c32TxPlan{spec: c32TxSpec{Kind: "legacy", Value: 9, FeeCap: c.Pow.Price}, from: c32S, key: c32Key1}
+		if c.Pow.ProgramBlock && i == 1 {
+			tx.program, tx.spec.Value = true, 7
+		}
+		plans[i].txs = []c32TxPlan{tx}
+	}
+	switch c.Pow.Uncles {
+	case "b3d1":
+		plans[2].uncles = []c32UnclePlan{{0, cb(0), 1}}
+	case "b4d2":
+		plans[3].uncles = []c32UnclePlan{{0, cb(0), 1}}
+	case "b4d2d1":
+		plans[3].uncles = []c32UnclePlan{{0, cb(0), 1}, {1, cb(1), 2}}
+	case "b3d1d1":
+		plans[2].uncles = []c32UnclePlan{{0, cb(0), 1}, {0, cb(1), 2}}
+	}
+	return plans
+}
+
 func c32Run(f c32Fork, units []c32Unit, seq []int, c c32Case) (outcome string, err error) {
+	plans := c32Plan(c)
 	// ---- genesis
 	ample := c32BigPow10(30)
 	alloc := types.GenesisAlloc{
@@ -419,6 +519,13 @@ func c32Run(f c32Fork, units []c32Unit, seq []int, c c32Case) (outcome string, e
 		c32D2: {Balance: big.NewInt(7), Code: (&c32Asm{}).pushAddr(c32E).op(vm.SELFDESTRUCT).b},
 		c32D3: {Balance: big.NewInt(7), Code: (&c32Asm{}).pushAddr(c32F2).op(vm.SELFDESTRUCT).b},
 	}
+	if c.ExactSender {
+		// the sender owns exactly gas limit x gas price + value: its balance is zero while the transaction runs and
+		// every later credit (refund of unused gas, ether sent back by the program) lands on a zero balance
+		exact := new(big.Int).Mul(big.NewInt(c32TxGas), new(big.Int).SetUint64(c.Tx.FeeCap))
+		exact.Add(exact, new(big.Int).SetUint64(c.Tx.Value))
+		alloc[c32S] = types.Account{Balance: exact}
+	}
 	m := &c32Model{f: f, bal: map[common.Address]*big.Int{}, nonce: map[common.Address]uint64{}, created: map[common.Address]bool{}, destructed: map[common.Address]bool{}}
 	for a, acc := range alloc {
 		m.bal[a] = new(big.Int).Set(acc.Balance)
@@ -430,7 +537,10 @@ func c32Run(f c32Fork, units []c32Unit, seq []int, c c32Case) (outcome string, e
 	if f.prague {
 		alloc = withSystemContracts(alloc) // zero balances
 	}
-	gspec := &Genesis{Config: f.cfg, GasLimit: 30_000_000, Alloc: alloc, BaseFee: new(big.Int).SetUint64(c.GenesisFee)}
+	gspec := &Genesis{Config: f.cfg, GasLimit: 30_000_000, Alloc: alloc}
+	if f.london {
+		gspec.BaseFee = new(big.Int).SetUint64(c.GenesisFee)
+	}
 	if f.cancun {
 		// parent excess chosen so that the block's blob base fee is well above 1
 		gspec.ExcessBlobGas = c32U64(uint64(3*f.blobFraction) + 20*131072)
@@ -443,21 +553,21 @@ func c32Run(f c32Fork, units []c32Unit, seq []int, c c32Case) (outcome string, e
 	signer := types.LatestSigner(f.cfg)
 	chainID := f.cfg.ChainID
 
-	type txrec struct {
-		spec    c32TxSpec
-		from    common.Address
-		program bool // runs B's program (or the creation)
-	}
 	var (
-		txs      []txrec
-		genErr   error
-		baseFee  *big.Int
-		blobFee  = new(big.Int)
-		gasUsed  []uint64
-		statuses []uint64
+		genErr      error
+		baseFee     = new(big.Int)
+		blobFee     = new(big.Int)
+		delta       = new(big.Int) // expected change of the total supply apart from destroyed ether
+		firstStatus = uint64(1)
+		snaps       []*c32Model // model after each block
+		deltas      []*big.Int
 	)
-	mkTx := func(key *ecdsa.PrivateKey, nonce uint64, to *common.Address, spec c32TxSpec, blobFeeNow *big.Int) *types.Transaction {
-		const gas = 5_000_000
+	mkTx := func(tp c32TxPlan, nonce uint64) *types.Transaction {
+		spec := tp.spec
+		to := &c32E
+		if tp.program {
+			to = &c32B
+		}
 		var data []byte
 		if spec.Kind == "create" {
 			switch spec.Init {
@@ -474,14 +584,14 @@ func c32Run(f c32Fork, units []c32Unit, seq []int, c c32Case) (outcome string, e
 		}
 		switch spec.Kind {
 		case "legacy":
-			return types.MustSignNewTx(key, signer, &types.LegacyTx{Nonce: nonce, To: to, Gas: gas, GasPrice: new(big.Int).SetUint64(spec.FeeCap), Value: new(big.Int).SetUint64(spec.Value), Data: data})
+			return types.MustSignNewTx(tp.key, signer, &types.LegacyTx{Nonce: nonce, To: to, Gas: c32TxGas, GasPrice: new(big.Int).SetUint64(spec.FeeCap), Value: new(big.Int).SetUint64(spec.Value), Data: data})
 		case "blob":
-			bcap := new(big.Int).Add(blobFeeNow, new(big.Int).SetUint64(spec.BlobCapAdd))
-			return types.MustSignNewTx(key, signer, &types.BlobTx{ChainID: uint256.MustFromBig(chainID), Nonce: nonce, To: *to, Gas: gas,
+			bcap := new(big.Int).Add(blobFee, new(big.Int).SetUint64(spec.BlobCapAdd))
+			return types.MustSignNewTx(tp.key, signer, &types.BlobTx{ChainID: uint256.MustFromBig(chainID), Nonce: nonce, To: *to, Gas: c32TxGas,
 				GasTipCap: uint256.NewInt(spec.Tip), GasFeeCap: uint256.NewInt(spec.FeeCap), Value: uint256.NewInt(spec.Value),
 				BlobFeeCap: uint256.MustFromBig(bcap), BlobHashes: []common.Hash{{0: 0x01, 31: 0x42}}})
 		default:
-			return types.MustSignNewTx(key, signer, &types.DynamicFeeTx{ChainID: chainID, Nonce: nonce, To: to, Gas: gas,
+			return types.MustSignNewTx(tp.key, signer, &types.DynamicFeeTx{ChainID: chainID, Nonce: nonce, To: to, Gas: c32TxGas,
 				GasTipCap: new(big.Int).SetUint64(spec.Tip), GasFeeCap: new(big.Int).SetUint64(spec.FeeCap), Value: new(big.Int).SetUint64(spec.Value), Data: data})
 		}
 	}
@@ -497,13 +607,16 @@ func c32Run(f c32Fork, units []c32Unit, seq []int, c c32Case) (outcome string, e
 		return tip.Add(tip, baseFee)
 	}
 	// applies the model of one transaction given the gas the receipt reports; returns the expected status
-	applyModel := func(tr txrec, used uint64) uint64 {
+	applyModel := func(tr c32TxPlan, used uint64) uint64 {
 		price := effPrice(tr.spec)
 		g := new(big.Int).SetUint64(used)
 		m.get(tr.from).Sub(m.get(tr.from), new(big.Int).Mul(g, price))
 		m.add(c32CB, new(big.Int).Mul(g, new(big.Int).Sub(price, baseFee)))
+		delta.Sub(delta, new(big.Int).Mul(g, baseFee)) // burned
 		if tr.spec.Kind == "blob" {
-			m.get(tr.from).Sub(m.get(tr.from), new(big.Int).Mul(big.NewInt(131072), blobFee))
+			fee := new(big.Int).Mul(big.NewInt(131072), blobFee)
+			m.get(tr.from).Sub(m.get(tr.from), fee)
+			delta.Sub(delta, fee) // burned
 		}
 		value := new(big.Int).SetUint64(tr.spec.Value)
 		status := uint64(1)
@@ -548,55 +661,71 @@ func c32Run(f c32Fork, units []c32Unit, seq []int, c c32Case) (outcome string, e
 		}
 		return nil
 	}
-	db, blocks, receipts := GenerateChainWithGenesis(gspec, engine, 1, func(i int, b *BlockGen) {
+	ether := c32BigPow10(18)
+	db, blocks, _ := GenerateChainWithGenesis(gspec, engine, len(plans), func(i int, b *BlockGen) {
+		plan := plans[i]
 		b.SetCoinbase(c32CB)
-		baseFee = b.BaseFee()
+		if f.london {
+			baseFee = b.BaseFee()
+		}
 		if f.cancun {
 			blobFee = c32FakeExp(big.NewInt(1), new(big.Int).SetUint64(*b.header.ExcessBlobGas), big.NewInt(f.blobFraction))
 		}
-		first := txrec{spec: c.Tx, from: c32S, program: true}
-		txs = append(txs, first)
-		if c.SecondTx {
-			txs = append(txs, txrec{spec: c32TxSpec{Kind: "dynamic", Value: 9, Tip: 3, FeeCap: 2_000_000_000}, from: c32S2})
-		}
-		for ti, tr := range txs {
-			key, to := c32Key1, c32B
-			if !tr.program {
-				key, to = c32Key2, c32E
+		for ti, tr := range plan.txs {
+			nonce := m.nonce[tr.from]
+			if tr.spec.Kind == "create" {
+				// createFrom consumes the nonce itself
 			}
-			tx := mkTx(key, 0, &to, tr.spec, blobFee)
-			b.AddTx(tx)
+			b.AddTx(mkTx(tr, nonce))
 			rc := b.receipts[len(b.receipts)-1]
-			gasUsed = append(gasUsed, rc.GasUsed)
-			statuses = append(statuses, rc.Status)
 			want := applyModel(tr, rc.GasUsed)
-			if genErr == nil && rc.Status != want {
-				genErr = fmt.Errorf("tx %d: receipt status %d, expected by construction %d", ti, rc.Status, want)
+			if i == 0 && ti == 0 {
+				firstStatus = want
+			}
+			if genErr == nil && f.status && rc.Status != want {
+				genErr = fmt.Errorf("block %d tx %d: receipt status %d, expected by construction %d", i+1, ti, rc.Status, want)
 			}
 			// each sender pays exactly gas fee + value + blob fee; the fee recipient receives gasUsed x tip (+ what the program sent it)
 			if genErr == nil {
-				genErr = check(b, fmt.Sprintf("after tx %d", ti), tr.from, c32CB)
+				genErr = check(b, fmt.Sprintf("block %d after tx %d", i+1, ti), tr.from, c32CB)
 			}
 		}
-		for wi, gwei := range c.Withdrawals {
+		// consensus rewards (yellow paper 11.3): R to the beneficiary plus R/32 per ommer; (8 + U_n - B_n) R / 8 to each ommer's beneficiary
+		if f.pow {
+			R := new(big.Int).Mul(big.NewInt(f.reward), ether)
+			num := int64(i + 1)
+			for _, u := range plan.uncles {
+				unum := int64(u.parent + 2)
+				b.AddUncle(&types.Header{ParentHash: b.PrevBlock(u.parent).Hash(), Number: big.NewInt(unum), Coinbase: u.coinbase, Extra: []byte{u.extra}})
+				ur := new(big.Int).Mul(big.NewInt(8+unum-num), R)
+				ur.Quo(ur, big.NewInt(8))
+				m.add(u.coinbase, ur)
+				delta.Add(delta, ur)
+				nephew := new(big.Int).Quo(R, big.NewInt(32))
+				m.add(c32CB, nephew)
+				delta.Add(delta, nephew)
+			}
+			m.add(c32CB, R)
+			delta.Add(delta, R)
+		}
+		for wi, gwei := range plan.withdrawals {
 			to := c32E
 			if wi%2 == 1 {
 				to = c32W
 			}
 			b.AddWithdrawal(&types.Withdrawal{Validator: uint64(wi), Address: to, Amount: gwei})
-			m.add(to, new(big.Int).Mul(new(big.Int).SetUint64(gwei), big.NewInt(1_000_000_000)))
+			w := new(big.Int).Mul(new(big.Int).SetUint64(gwei), big.NewInt(1_000_000_000))
+			m.add(to, w)
+			delta.Add(delta, w)
 		}
+		snaps = append(snaps, m.copy())
+		deltas = append(deltas, new(big.Int).Set(delta))
 	})
 	if genErr != nil {
 		return "", genErr
 	}
-	if f.pow {
-		m.add(c32CB, new(big.Int).Mul(big.NewInt(2), c32BigPow10(18))) // Constantinople block reward, no uncles
-	}
-	block := blocks[0]
-	_ = receipts
-	// ---- totals and every account from the state tries (before = genesis state, after = block state)
-	parent := rawdb.ReadHeader(db, block.ParentHash(), 0)
+	// ---- totals and every account from the state tries (before = genesis state, after = state of each block)
+	parent := rawdb.ReadHeader(db, blocks[0].ParentHash(), 0)
 	if parent == nil {
 		return "", fmt.Errorf("harness: genesis header not found")
 	}
@@ -607,51 +736,42 @@ func c32Run(f c32Fork, units []c32Unit, seq []int, c c32Case) (outcome string, e
 	if preTrie.Cmp(preTotal) != 0 {
 		return "", fmt.Errorf("harness: genesis state holds %s wei, alloc %s", preTrie, preTotal)
 	}
-	post, postTrie, err := c32TrieBalances(db, block.Root())
-	if err != nil {
-		return "", fmt.Errorf("harness: post-state: %v", err)
-	}
-	// conservation: after - before == withdrawals + reward - baseFee*gasUsed - blobFee*blobGas - destroyed
-	delta := new(big.Int)
-	for _, gwei := range c.Withdrawals {
-		delta.Add(delta, new(big.Int).Mul(new(big.Int).SetUint64(gwei), big.NewInt(1_000_000_000)))
-	}
-	if f.pow {
-		delta.Add(delta, new(big.Int).Mul(big.NewInt(2), c32BigPow10(18)))
-	}
-	for i, tr := range txs {
-		delta.Sub(delta, new(big.Int).Mul(new(big.Int).SetUint64(gasUsed[i]), baseFee))
-		if tr.spec.Kind == "blob" {
-			delta.Sub(delta, new(big.Int).Mul(big.NewInt(131072), blobFee))
+	destroyed := new(big.Int)
+	for bi, block := range blocks {
+		mb := snaps[bi]
+		post, postTrie, err := c32TrieBalances(db, block.Root())
+		if err != nil {
+			return "", fmt.Errorf("harness: state of block %d: %v", bi+1, err)
 		}
-	}
-	modelTotal := new(big.Int)
-	for _, b := range m.bal {
-		modelTotal.Add(modelTotal, b)
-	}
-	// destroyed = what the model says self-destruction burned
-	destroyed := new(big.Int).Sub(new(big.Int).Add(preTotal, delta), modelTotal)
-	if destroyed.Sign() < 0 {
-		return "", fmt.Errorf("harness: model created ether (%s)", destroyed)
-	}
-	want := new(big.Int).Sub(new(big.Int).Add(preTotal, delta), destroyed)
-	if postTrie.Cmp(want) != 0 {
-		return "", fmt.Errorf("total ether after the block %s, expected %s = before %s %+d (withdrawals, reward, burned fees) - destroyed %s; difference %s",
-			postTrie, want, preTotal, delta, destroyed, new(big.Int).Sub(postTrie, want))
-	}
-	// every account of the model
-	addrs := make([]common.Address, 0, len(m.bal))
-	for a := range m.bal {
-		addrs = append(addrs, a)
-	}
-	sort.Slice(addrs, func(i, j int) bool { return addrs[i].Cmp(addrs[j]) < 0 })
-	for _, a := range addrs {
-		got := post[crypto.Keccak256Hash(a.Bytes())]
-		if got == nil {
-			got = new(big.Int)
+		// conservation: after - before == withdrawals + rewards - baseFee*gasUsed - blobFee*blobGas - destroyed
+		modelTotal := new(big.Int)
+		for _, b := range mb.bal {
+			modelTotal.Add(modelTotal, b)
 		}
-		if got.Cmp(m.bal[a]) != 0 {
-			return "", fmt.Errorf("balance of %s after the block is %s, model %s (difference %s)", c32Name(a), got, m.bal[a], new(big.Int).Sub(got, m.bal[a]))
+		// destroyed = what the model says self-destruction burned
+		destroyed = new(big.Int).Sub(new(big.Int).Add(preTotal, deltas[bi]), modelTotal)
+		if destroyed.Sign() < 0 {
+			return "", fmt.Errorf("harness: model created ether (%s)", destroyed)
+		}
+		want := new(big.Int).Sub(new(big.Int).Add(preTotal, deltas[bi]), destroyed)
+		if postTrie.Cmp(want) != 0 {
+			return "", fmt.Errorf("total ether after block %d is %s, expected %s = genesis %s %+d (withdrawals, block/uncle/nephew rewards, burned fees) - destroyed %s; difference %s",
+				bi+1, postTrie, want, preTotal, deltas[bi], destroyed, new(big.Int).Sub(postTrie, want))
+		}
+		// every account of the model
+		addrs := make([]common.Address, 0, len(mb.bal))
+		for a := range mb.bal {
+			addrs = append(addrs, a)
+		}
+		sort.Slice(addrs, func(i, j int) bool { return addrs[i].Cmp(addrs[j]) < 0 })
+		for _, a := range addrs {
+			got := post[crypto.Keccak256Hash(a.Bytes())]
+			if got == nil {
+				got = new(big.Int)
+			}
+			if got.Cmp(mb.bal[a]) != 0 {
+				return "", fmt.Errorf("balance of %s after block %d is %s, model %s (difference %s)", c32Name(a), bi+1, got, mb.bal[a], new(big.Int).Sub(got, mb.bal[a]))
+			}
 		}
 	}
 	if c.Insert {
@@ -659,23 +779,30 @@ func c32Run(f c32Fork, units []c32Unit, seq []int, c c32Case) (outcome string, e
 		if err != nil {
 			return "", fmt.Errorf("harness: NewBlockChain: %v", err)
 		}
-		_, ierr := chain.InsertChain(blocks)
-		var sbal *big.Int
+		n, ierr := chain.InsertChain(blocks)
+		bals := map[common.Address]*big.Int{}
 		if ierr == nil {
 			if st, e := chain.State(); e == nil {
-				sbal = st.GetBalance(c32S).ToBig()
+				for _, a := range []common.Address{c32S, c32CB, c32E, c32U1, c32U2} {
+					bals[a] = st.GetBalance(a).ToBig()
+				}
 			}
 		}
 		chain.Stop()
 		if ierr != nil {
-			return "", fmt.Errorf("block produced by GenerateChain is rejected by BlockChain.InsertChain (state processor path): %v", ierr)
+			return "", fmt.Errorf("block %d produced by GenerateChain is rejected by BlockChain.InsertChain (state processor path): %v", n+1, ierr)
 		}
-		if sbal == nil || sbal.Cmp(m.bal[c32S]) != 0 {
-			return "", fmt.Errorf("sender balance after InsertChain %v, model %s", sbal, m.bal[c32S])
+		for _, a := range []common.Address{c32S, c32CB, c32E, c32U1, c32U2} {
+			if bals[a] == nil || bals[a].Cmp(m.get(a)) != 0 {
+				return "", fmt.Errorf("balance of %s after InsertChain %v, model %s", c32Name(a), bals[a], m.get(a))
+			}
 		}
 	}
+	if c.Pow != nil {
+		return "pow_uncles_" + c.Pow.Uncles, nil
+	}
 	st := "ok"
-	if statuses[0] == 0 {
+	if firstStatus == 0 {
 		st = "failed"
 	}
 	if destroyed.Sign() > 0 {
@@ -686,7 +813,7 @@ func c32Run(f c32Fork, units []c32Unit, seq []int, c c32Case) (outcome string, e
 
 func c32Name(a common.Address) string {
 	names := map[common.Address]string{c32S: "sender", c32S2: "sender2", c32B: "B", c32E: "E", c32F: "F(absent)", c32F2: "F2(absent)", c32Rv: "reverter",
-		c32Og: "oog-callee", c32D1: "D1", c32D2: "D2", c32D3: "D3", c32CB: "coinbase", c32P4: "precompile4", c32W: "W(absent)"}
+		c32Og: "oog-callee", c32D1: "D1", c32D2: "D2", c32D3: "D3", c32CB: "coinbase", c32P4: "precompile4", c32W: "W(absent)", c32U1: "uncle-miner(never funded)", c32U2: "uncle-miner2(never funded)"}
 	if n, ok := names[a]; ok {
 		return n
 	}
